@@ -31,8 +31,54 @@ def configs(names, rng, quick):
     return res + extra
 
 
-def check(ctx, relevant=None):
-    """relevant: the bypass names this property is about (None = all of them)."""
+def _coq_str(x):
+    return '"' + x.replace('"', '""') + '"'
+
+
+def _coq_list(xs):
+    return '[' + '; '.join(xs) + ']'
+
+
+def kernel_tie(ctx, items):
+    """Model/AuthorOpts.v evaluated by the Coq kernel on the settings fragments the real loader just read:
+    items = [(cfg, authors, outcome)] with outcome = ('error', elem) | ('grants', [[names granted] per author])."""
+    import os
+    import re
+    d = os.path.join(core.BUILD, 'cross', 'authoropts')
+    os.makedirs(d, exist_ok=True)
+    lines = ['From Coq Require Import List String.', 'Require Import BertE.Generated.Facts_C07 BertE.Model.AuthorOpts.',
+             'Import ListNotations.', 'Open Scope string_scope.']
+    for i, (cfg, authors, out) in enumerate(items):
+        c = _coq_list('(%s, %s)' % (_coq_str(u), _coq_list(map(_coq_str, l))) for u, l in cfg)
+        a = _coq_list(map(_coq_str, authors))
+        rhs = 'inl %s' % _coq_str(out[1]) if out[0] == 'error' else \
+            'inr %s' % _coq_list(_coq_list(map(_coq_str, g)) for g in out[1])
+        lines.append('Example ao_%d : ao_outcome pr_author_bypass_list %s %s = %s.\nProof. vm_compute. reflexivity. Qed.'
+                     % (i, c, a, rhs))
+    path = os.path.join(d, 'cases.v')
+    with open(path, 'w') as f:
+        f.write('\n'.join(lines) + '\n')
+    with core.Lock():
+        rc, out = core.sh('timeout 900 coqc -Q %s BertE -w -notation-overridden cases.v' % core.COQ, cwd=d)
+    ctx.count('per_author_grants_kernel_evaluated', len(items))
+    if rc != 0:
+        bad = None
+        m = re.search(r'line (\d+)', out)
+        if m:
+            text = open(path).read().split('\n')
+            for j in range(min(int(m.group(1)), len(text)) - 1, -1, -1):
+                mm = re.match(r'^Example ao_(\d+) ', text[j])
+                if mm:
+                    bad = items[int(mm.group(1))]
+                    break
+        ctx.mismatch({'pr_author_options': bad[0], 'authors': bad[1]} if bad else {'file': path},
+                     list(bad[2]) if bad else 'loader', 'vm_compute of ao_outcome disagrees: %s' % out[-600:],
+                     'AuthorOpts.ao_outcome (Coq kernel) vs PrAuthorsOptions.deserialize + author_bypass')
+
+
+def check(ctx, relevant=None, kernel=False):
+    """relevant: the bypass names this property is about (None = all of them).
+    kernel: also evaluate Model/AuthorOpts.v on the same fragments (needs the cone of C07 to be built)."""
     from bert_e.settings import PrAuthorsOptions
     from bert_e.job import PullRequestJob
     probe = PrAuthorsOptions().deserialize({'probe': []})
@@ -40,6 +86,22 @@ def check(ctx, relevant=None):
     if not names:
         ctx.mismatch('pr_author_options', 'no bypass name known to the loader', None, 'per-author grants')
         return
+    kitems = []
+    if kernel:
+        # fragments the loader must refuse: an unknown name, in the first / the last author, first / last position
+        for cfg in ([('svc-bot', [names[0], 'bypass_everything']), ('carol', [names[1]])],
+                    [('svc-bot', [names[0]]), ('carol', ['approve', names[1]])],
+                    [('svc-bot', ['bypass_nothing']), ('carol', ['bypass_everything'])],
+                    [('svc-bot', []), ('carol', [names[-1], ''])]):
+            try:
+                PrAuthorsOptions().deserialize({u: list(l) for u, l in cfg})
+                kitems.append((cfg, ['carol'], ('grants', 'accepted')))
+            except Exception as exc:
+                msg = str(exc).split('does not exist: ', 1)[-1]
+                if str(exc).endswith("'.") and "'" in str(exc)[:-2]:      # the exception class quotes its message
+                    msg = msg[:-2]
+                kitems.append((cfg, ['carol'], ('error', msg)))
+            ctx.evaluations += 1
     for cfg in configs(names, ctx.rng, ctx.quick):
         raw = {u: list(l) for u, l in cfg}             # insertion order = order in the settings file
         try:
@@ -52,11 +114,13 @@ def check(ctx, relevant=None):
         # other people whose login merely resembles a listed one (part of it, an extension of it) are granted nothing
         others = [('nobody', [])] + [(n, []) for n in ('bot', 'svc', 'svc-bot2', 'car', 'carol-x', 'a', 'e')
                                      if n not in raw]
+        grants_all = []
         for user, listed in cfg + others:
             job = PullRequestJob(pull_request=SimpleNamespace(id=1, author=user, comments=[]), settings={},
                                  bert_e=SimpleNamespace(settings=_Settings(pr_author_options=loaded),
                                                         project_repo=None, git_repo=None))
             got = sorted(k for k, v in job.author_bypass.items() if v)
+            grants_all.append([k for k in names if job.author_bypass.get(k, False)])
             want = sorted(listed)
             ctx.evaluations += 1
             ctx.count('per_author_grants:%d_authors' % len(cfg))
@@ -68,3 +132,12 @@ def check(ctx, relevant=None):
                               'per-author settings: the grants in effect for an author are not the ones listed for him',
                               key=core.canon({'what': 'per-author grants', 'extra': sorted(set(got) - set(want)),
                                               'missing': sorted(set(want) - set(got))}))
+        if kernel and len(kitems) < 160:
+            kitems.append((cfg, [u for u, _l in cfg + others], ('grants', grants_all)))
+    if kernel and kitems:
+        bad = [k for k in kitems if k[2] == ('grants', 'accepted')]
+        for cfg, _a, _o in bad:
+            ctx.violation({'pr_author_options': cfg}, 'IncorrectSettingsFile', 'accepted',
+                          'a settings file that lists an unknown bypass name is accepted',
+                          key=core.canon({'what': 'per-author grants: unknown name accepted'}))
+        kernel_tie(ctx, [k for k in kitems if k not in bad])
